@@ -8,6 +8,7 @@ git -C /repo worktree add -q --detach "$WT" HEAD || exit 9
 cd "$WT"
 export PYTHONPATH="$WT/src/python" PYTHONDONTWRITEBYTECODE=1
 ok=1
+mkdir -p "$WT/_seed/x" && cp "$SEED"/* "$WT/_seed/x/" && SEED="$WT/_seed/x"
 /venv/bin/python "$SEED/demo.py" >/dev/null 2>&1; clean_rc=$?
 git apply "$SEED/patch.diff" || { echo "PATCH DOES NOT APPLY"; ok=0; }
 if [ $ok = 1 ]; then
